@@ -54,7 +54,7 @@ def gen_param(rnd, base=None):
     """a constructor parameter record; variants of `base` change one coverpoint's bins (different shape)
     or only the options (same shape)"""
     if base is None:
-        ncp = rnd.choice([1, 2, 2, 3])
+        ncp = rnd.choice([1, 2, 2, 3, 3])
         cps = []
         for _ in range(ncp):
             cp = c11.gen_cp(rnd)
@@ -62,13 +62,16 @@ def gen_param(rnd, base=None):
             cp["weight"] = rnd.choice([None, None, 1, 2, 5, 0])
             cps.append(cp)
         crosses = []
-        if ncp >= 2 and rnd.random() < 0.5:
+        if ncp >= 2 and rnd.random() < 0.6:
             crosses.append({"cps": [0, 1], "at_least": rnd.choice([None, 1, 2]), "weight": rnd.choice([None, 1, 3])})
         p = {"cps": cps, "crosses": crosses}
     else:
         import copy
         p = copy.deepcopy(base)
         j = rnd.randrange(len(p["cps"]))
+        outside = [k for k in range(len(p["cps"])) if not any(k in x["cps"] for x in p["crosses"])]
+        if p["crosses"] and outside and rnd.random() < 0.6:
+            j = rnd.choice(outside)      # a coverpoint that no cross covers: only its own comparison can tell the shapes apart
         r = rnd.random()
         cp = p["cps"][j]
         if r < 0.35:
